@@ -27,6 +27,20 @@ Theorem C15_loader_guarded :
 Proof. exact loader_guarded. Qed.
 Print Assumptions C15_loader_guarded.
 
+(* The same at the level of Request.get_cookie, for ANY Cookie header: the
+   unpickler is called only on base64-decode(msg) of a cookie value "!sig?msg" of
+   that name whose signature is base64(mac(key, msg)). *)
+Theorem C15_request_loader_guarded :
+  forall (val : Type) (mac : list N -> list N -> list N) (loads : list N -> @lres val)
+         (hdr key : str) (secret : option str) (arg : list N),
+    snd (get_cookie val mac loads hdr key secret) = Some arg ->
+    exists sec value d k sig msg,
+      secret = Some sec /\ parse_cookies hdr = PCookies d /\ assoc_get key d = Some value
+      /\ utf8_encode value = Some (33 :: sig ++ 63 :: msg) /\ utf8_encode sec = Some k
+      /\ ~ In 63 sig /\ sig = b64encode (mac k msg) /\ b64decode msg = Some arg.
+Proof. exact request_loader_guarded. Qed.
+Print Assumptions C15_request_loader_guarded.
+
 (* Any signature part that is not exactly base64(mac(key, msg)) — a substituted,
    deleted, inserted or truncated byte, another cookie's signature — is rejected
    and nothing is unpickled.  No assumption on the MAC.  (A '?' put into the
